@@ -57,6 +57,11 @@ def configs(tier):
                     out.append(dict(op=op, rhs=rhs, dta=dta, dtb=("int64" if rhs == "int" else "float64"), sa=[2],
                                     sb=([] if rhs in ("int", "float") else [2]), ua=ua,
                                     ub=(ub if rhs == "Quantity" else "dimensionless")))
+    # the same comparison twice with the same right operand OBJECT (an ndarray / a Quantity holding an ndarray): the operand
+    # is only converted, never altered, so the second answer is the first
+    for op in CMP:
+        out.append(dict(op=op, rhs="Quantity", dta="float64", dtb="float64", sa=[2], sb=[2], ua="m", ub="cm", pre="cmp", mut="none"))
+        out.append(dict(op=op, rhs="ndarray", dta="float64", dtb="float64", sa=[2], sb=[2], ua="percent", ub="dimensionless", pre="cmp", mut="none"))
     # boolean operands (True, a boolean ndarray, a mask Array) are dimensionless numbers: against a dimensional Array they
     # must be refused like any other dimensionless operand, against a dimensionless one compared as 0 / 1
     for op in CMP:
@@ -166,7 +171,8 @@ def body(m, cfg):
             b.unit = osyris.units(nb)
             fb, db = C.fd(nb)
             cfg = dict(cfg, ub=nb)
-        av, bv = m.vals(a._array), m.vals(b._array)
+        if rhs == "Array":
+            av, bv = m.vals(a._array), m.vals(b._array)
     snap_a = C.snapshot(m, a)
     ia, ib, bs = C.bcast_index(sa, sb)
     try:
@@ -196,6 +202,10 @@ def body(m, cfg):
         fs.append(_verdict_ok(m, op, claimed, x, y, exact, tol=tolu))
     m.check("verdicts agree with the physical comparison", m.And(fs), key=f"verdict:{tag}")
     m.require(C.unchanged(m, a, snap_a), "operand unchanged", key=f"operands-changed:{tag}")
+    if rhs in ("ndarray", "Quantity"):
+        now = m.vals(b if rhs == "ndarray" else b.magnitude)
+        m.check("the right operand (the caller's ndarray / Quantity) is not altered", m.And([m.close(x, y, exact=True) for x, y in zip(now, bv)]),
+                key=f"rhs-changed:{tag}")
 
 
 def _logical(m, cfg, op, sa, sb):
